@@ -79,11 +79,12 @@ CLAIMED = {
          "0 <= F <= 1, = 0 on orthogonal supports; Matsumoto <= F; exact Hilbert-Schmidt / inner product / sub-fidelity radicand evaluators bridged to Mathlib traces. Per run: rational density pairs/triples (dim 2-6, every rank, real/complex, pure/commuting/orthogonal/nearly equal) with certified intervals of width ~1e-9; "
          "every metric function within 1e-8 of its enclosure; inequalities and invariances on outputs; rejection of non-density inputs; fidelity of separability of pure product states = 1.",
          "Trusted: Lean kernel + standard axioms; Python harness (mpmath for certificate candidates, untrusted). Cited: SDP optimum = tr sqrt(sqrt rho sigma sqrt rho); Fuchs-van de Graaf; E <= F^2; Bures closed forms as monotone functions of F. Known finding: hilbert_schmidt returns the squared spectral norm."),
- "C07": ("Lean 4 refinement theorem (mirror of classical_value = max over all pairs of answer functions), product-game / BCS tensor theorems, purity state machine + exact correspondence; NPA / non-signalling ordering on returned floats",
-         "Kernel-checked: the (repaired) enumeration of classical_value equals the maximum winning probability over all deterministic strategy pairs for all alphabet sizes and rational tensors; the pre-fix enumeration is proved incomplete exactly when the enumerated player has more answers (with the concrete counterexample); "
-         "update_odometer counts in mixed radix; the reps constructor builds the product game (predicate and distribution, exponentiation by squaring); the BCS predicate scores exactly satisfying consistent assignments; value methods leave the object unchanged, hence order independence by induction over call lists. "
-         "Tie to /repo: classical_value compared with the brute-force spec (exact for dyadic data) on games with unequal alphabets 1..4, reps 1-2; product and BCS tensors entry by entry; histories of value methods with attribute snapshots; per instance classical <= NPA(1, 1+ab, 2), see-saw <= NPA, NPA non-increasing, <= non-signalling <= 1 within solver tolerance.",
-         "Trusted: Lean kernel + standard axioms; Python harness; tau 1e-3 (SCS). NOT yet a theorem here: soundness of the NPA constraint generator and the non-signalling LP (the ordering clauses are established per instance on the returned floats only); the SDP methods are an abstract oracle in the state machine."),
+ "C07": ("Lean 4 refinement theorem (mirror of classical_value = max over all pairs of answer functions), product-game / BCS tensor theorems, purity state machine, model of the NPA constraint generator with soundness for deterministic AND commuting-operator quantum strategies, level monotonicity, NPA within non-signalling <= 1 + exact correspondence and feasibility embedding into the captured cvxpy problems",
+         "Kernel-checked: classical_value's (repaired) enumeration equals the maximum over all deterministic strategy pairs for all alphabet sizes; the pre-fix enumeration is incomplete exactly when the enumerated player has more answers (concrete counterexample); update_odometer, the reps product game and the BCS predicate; value methods are pure, hence order independence. "
+         "NPA: mirror of _reduce/_parse/_gen_words and of the constraint list emitted by npa_constraints; _reduce preserves the value of every word; every deterministic strategy (R = z z^T, K) and every commuting projective quantum strategy in any finite dimension satisfies every emitted constraint at every well-formed level with objective = its winning probability (so classical and quantum values are <= every NPA bound); "
+         "a feasible point of a higher level restricts to the lower level (words of 1 within '1+ab' within 2), so the bound is non-increasing; the assemblage constraints are exactly the non-signalling polytope and its objective is <= 1. Tie to /repo: classical_value vs brute-force spec (exact), tensors entry by entry, histories; words and reductions symbol for symbol; the cvxpy problems "
+         "built by commuting_measurement_value_upper_bound(k) and nonsignaling_value are captured in-process and every constraint is evaluated at the embedded strategies (residual <= 1e-12, objective = exact winning probability); ordering chain on returned floats.",
+         "Trusted: Lean kernel + standard axioms; Python harness; tau 1e-3 (SCS) for the ordering on returned floats. A model constraint missing in the code is not detectable by embedding (only noted via counts); see-saw POVMs are not projective (Naimark dilation not formalised); the extended-game NPA caller is not modelled (C09 checks it numerically)."),
  "C08": ("Lean 4 theorems (Tsirelson weak duality for Gram matrices, vector families and genuine quantum strategies; level-1 moment program = Tsirelson program; classical value = sign maximum; conversion; non-signalling value 1; Bell bounds) + verified certificate checkers",
          "Kernel-checked for all finite question sets: weak duality of the Tsirelson program incl. actual quantum strategies via their moment matrices; sign assignments are feasible (classical <= quantum); the converted general game has the same deterministic winning probabilities; value formula and reps power; "
          "an XOR game's non-signalling value is exactly the total probability (PR-box-like behaviour); Bell inequality: dual bound valid for all quantum strategies with marginal terms, explicit-strategy lower bound, deterministic maximum attained, affine change of outcome labels; checker soundness. "
